@@ -85,7 +85,7 @@ impl Service<Req> for YInner {
     }
 }
 
-type Svc = tower_resilience_coalesce::CoalesceService<YInner, u8, Req, fn(&Req) -> u8>;
+type Svc = tower_resilience_coalesce::CoalesceService<YInner, trv_core::inner::WeakKey, Req, fn(&Req) -> trv_core::inner::WeakKey>;
 type Pending = Pin<Box<dyn Future<Output = Result<Resp, CoalesceError<InnerErr>>> + Send>>;
 
 pub struct Shared {
@@ -95,8 +95,9 @@ pub struct Shared {
     leftover: Mutex<Vec<(u8, Pending)>>,
 }
 
-fn key_of(r: &Req) -> u8 {
-    r.key
+/// keys with a deliberately weak Hash (all of them collide)
+fn key_of(r: &Req) -> trv_core::inner::WeakKey {
+    trv_core::inner::WeakKey(r.key)
 }
 
 #[derive(Clone)]
@@ -140,7 +141,7 @@ impl TCfg {
             name: self.label(),
             make: Arc::new(|| {
                 let log = Arc::new(Mutex::new(Log::default()));
-                let f: fn(&Req) -> u8 = key_of;
+                let f: fn(&Req) -> trv_core::inner::WeakKey = key_of;
                 let layer = CoalesceLayer::new(f);
                 Shared { svc: layer.layer(YInner { log: log.clone() }), log, leftover: Mutex::new(vec![]) }
             }),
